@@ -256,6 +256,7 @@ func buildProperties() []Property {
 			Decides:    "panic classes visible in code shape (zero divisor, negative shift, uncomparable interface comparison, missing table row) Every computed index into a fixed-size array is proven in range (enumeration, range loop, branch facts, or ring cursor by interval interpretation).",
 			NotDecided: "termination on arbitrary text, slice bounds in general, memory exhaustion",
 			Rules: []RuleDef{
+				{"R-NEXT-ADVANCES", 2, ruleNextAdvances},
 				{"R-ARRAY-INDEX", 20, ruleArrayIndex},
 				{"R-DIV-GUARD", 3, ruleDivGuard},
 				{"R-SHIFT-GUARD", 2, ruleShiftGuard},
